@@ -132,7 +132,7 @@ def conj_formula(conds, positive):
     return f_and(*[to_formula(c, positive) for c in conds])
 
 
-def feasible_with(conds, domain, positive):
+def feasible_with(conds, domain, positive, int_atoms=None):
     f = conj_formula(conds, positive)
     atoms = set()
     _atoms_of(f, atoms)
@@ -140,7 +140,7 @@ def feasible_with(conds, domain, positive):
         atoms.update(d.co.keys())
     side = abs_side_conditions(atoms, positive)
     pos = [Lin({a: -1}, 0, "<") for a in sorted(atoms) if a in positive]
-    return sat(f_and(f, *side), list(domain) + pos)
+    return sat(f_and(f, *side), list(domain) + pos, int_atoms=int_atoms)
 
 
 def outcome_equal(a, b):
@@ -155,7 +155,7 @@ def outcome_equal(a, b):
     return a == b
 
 
-def compare_rows(A, B, domain=(), positive=("N",)):
+def compare_rows(A, B, domain=(), positive=("N",), int_atoms=None):
     """A, B: [(conds, outcome)].  None if for every overlapping pair the outcomes agree;
     otherwise a dict describing the first disagreement (with the overlapping region's constraints)."""
     positive = set(positive)
@@ -163,7 +163,7 @@ def compare_rows(A, B, domain=(), positive=("N",)):
         for cb, ob in B:
             if outcome_equal(oa, ob):
                 continue
-            w = feasible_with(list(ca) + list(cb), domain, positive)
+            w = feasible_with(list(ca) + list(cb), domain, positive, int_atoms=int_atoms)
             if w is not None:
                 from .sym import fmt_conds
                 return {"code_conditions": fmt_conds(ca), "code_outcome": repr(oa),
